@@ -82,7 +82,7 @@ fn explore(r: &Report, s: &str, label: &str) {
         tried.fetch_add(local, Ordering::Relaxed);
     });
     // HRP substitutions
-    let alnum: Vec<u8> = (b'a'..=b'z').chain(b'0'..=b'9').collect();
+    let alnum: Vec<u8> = (b'a'..=b'z').chain(b'0'..=b'9').chain(b'A'..=b'Z').collect();
     let mut hrp_tried = 0u64;
     for a in 0..sep {
         for &ca in &alnum {
@@ -109,6 +109,20 @@ fn explore(r: &Report, s: &str, label: &str) {
                     let ob = buf[b];
                     buf[b] = cb;
                     try_one(&buf, "two hrp characters");
+                    // every character of a 3-character HRP replaced at once
+                    if sep == 3 {
+                        for c in b + 1..sep {
+                            for &cc in &alnum {
+                                if cc == base[c] {
+                                    continue;
+                                }
+                                let oc = buf[c];
+                                buf[c] = cc;
+                                try_one(&buf, "three hrp characters");
+                                buf[c] = oc;
+                            }
+                        }
+                    }
                     buf[b] = ob;
                 }
             }
@@ -151,8 +165,8 @@ pub fn run(r: &Report) {
     }
     r.set_rule(&format!(
         "{} representative segwit addresses ({}); for each, the COMPLETE set of single (L*31) and double (C(L,2)*31^2) substitutions \
-         over the bech32 alphabet in the data part (version and checksum characters included) and all single/double HRP substitutions \
-         over [a-z0-9], each parsed with from_str and parse_with_params under all three networks; non-trivial = distinct representative addresses",
+         over the bech32 alphabet in the data part (version and checksum characters included) and all single/double (triple for 3-character HRPs) HRP substitutions \
+         over [a-z0-9A-Z], each parsed with from_str and parse_with_params under all three networks; non-trivial = distinct representative addresses",
         reps.len(),
         if r.tier.thorough() { "every program length 2..40 and v0 20/32, blinded and unblinded, on all three networks" } else { "bech32 v0-20, bech32m v1-32, blech32 v0-20/32, blech32m v1-32, longest blech32m v16-40, shortest bech32m/blech32m" }
     ));
